@@ -1,4 +1,5 @@
 import TinysetModel.Proofs.InsertSrc
+import TinysetModel.Proofs.TinyInsertSrc
 import TinysetModel.Proofs.RemoveSrc
 import TinysetModel.Proofs.ContainsSrc
 import TinysetModel.Proofs.Loops
@@ -306,6 +307,26 @@ theorem dispatch_is_the_source_u64 (bits : Nat) :
     Gen.layout_64 bits = (if isDense cfg64 bits then 1 else if isPlain cfg64 bits then 0 else 2) ∧
     Gen.layout_mut_64 bits = Gen.layout_64 bits := layout_64_eq bits
 
+/-- `SetU64::remove` on a heap block as it is in the current source: the dispatch of `internal_mut()` (translated),
+then the arm (translated) -/
+def srcRemoveHeap64 (e sz bits : Nat) (a : Tbl) : Except String ((Bool × Nat) × Array Nat) :=
+  match Gen.layout_mut_64 bits with
+  | 0 => Gen.remove_big_64 e sz bits a
+  | 1 => Gen.remove_dense_64 e sz a
+  | _ => Gen.remove_heap_64 e sz bits a
+
+/-- on every well-formed heap representation the model's `remove` returns what the source's `remove` — dispatch and arm,
+both translated on this run — returns: answer, member count, slice (the inline arm is `collect()` of the rest) -/
+theorem remove_whole_is_the_source_u64 {D : Type} (g : Rng D) (fuel e sz cap bits : Nat) (a : Tbl) (he : e < 2 ^ 64)
+    (wf : WF cfg64 (.heap sz cap bits a)) (d : D) :
+    remove cfg64 g fuel (.heap sz cap bits a) e d = armOut cap bits d (srcRemoveHeap64 e sz bits a) := by
+  have hl : Gen.layout_mut_64 bits = Gen.layout_64 bits := (layout_64_eq bits).2
+  rcases layout_64_cases bits with ⟨hb, h1⟩ | ⟨hb, h1⟩ | ⟨hb, h1⟩ <;> simp only [srcRemoveHeap64, hl, h1]
+  · subst hb
+    exact remove_dense_64_eq g fuel e sz cap a (heap_cap_of_wf cfg64_ok wf).1 d
+  · exact remove_big_64_eq g fuel e sz cap bits a hb d
+  · exact remove_heap_64_eq g fuel e sz cap bits a he hb d
+
 /-- `SetU64::contains` as it is in the current source: `internal()` tells the five views apart (the constructors of `Rp` for the
 tagged word; for a heap block the dispatch on its `bits` word, `Gen.layout_64`, translated on every run and proved to be
 the model's `isDense` / `isPlain`: `layout_64_eq`), then the arm's code as translated on every run -/
@@ -368,6 +389,18 @@ theorem insert_placeholder_is_the_source_u64 {D : Type} (g : Rng D) (fuel sz cap
     (h : Gen.insert_bigfull_64 bits sz bits a (modW cfg64 (g.draw d cap bits).1) = .ok res) :
     insert cfg64 g (fuel + 1) (.heap sz cap bits a) bits d = armOutB cap (g.draw d cap bits).2 (.ok res) :=
   SC.insert_placeholder_is_the_source_u64 g fuel sz cap bits a hb d hsmall h
+
+/-- **`insert` on an empty or inline set is the source's**: the `Empty` and `Stack` arms of `SetU64::insert` up to the
+point where the set has to leave the word — `Tiny::from_singleton` / `Tiny::insert` (translated in full:
+`inline_insert_is_the_source_u64`, C10) and `to_usize`, with the glue `*self = SetU64(newt.to_usize() as *mut S); return
+newt.sz != t.sz` pinned by shape —: whenever the translated arm yields a new tagged word and an answer, the model's
+`insert` returns that answer and an inline set whose tagged word is that word, the generator untouched -/
+theorem insert_inline_is_the_source_u64 {D : Type} (g : Rng D) (fuel e : Nat) (he : e < 2 ^ 64) (d : D) (w : Nat) (b : Bool) :
+    (Gen.insert_empty_64 e = some (w, b) →
+      ∃ t', insert cfg64 g (fuel + 1) .empty e d = .ok ((.stack t', b), d) ∧ TinyC.toWord TinyC.codec64 t' = w) ∧
+    (∀ t, WF cfg64 (.stack t) → Gen.insert_stack_64 t.sz t.bits e = .ok (some (w, b)) →
+      ∃ t', insert cfg64 g (fuel + 1) (.stack t) e d = .ok ((.stack t', b), d) ∧ TinyC.toWord TinyC.codec64 t' = w) :=
+  ⟨fun h => insert_empty_64_eq g fuel e he d w b h, fun t wf h => insert_stack_64_eq g fuel t wf e he d w b h⟩
 
 end C01
 
